@@ -258,9 +258,27 @@ def install(cobyqa):
             rec = {"kind": kind, "xi": xi.tobytes(), "penalty": float(penalty)}
             info = ps.pbinfo
             if info is not None and info["feasible"] and xi.shape == info["xl"].shape:
+                # "inside up to rounding": the trial point is centre + step, so the rounding that counts is
+                # relative to the larger of |bound|, |trial point| and |centre| (a centre at 1e22 cannot
+                # resolve a bound at -0.6)
+                centre = np.abs(info["x0"])
+                try:
+                    tr = ps.framework
+                    if tr is not None and kind != "init":
+                        centre = np.abs(np.array(tr.x_best, dtype=float))
+                except Exception:
+                    pass
+                # ... and of the largest magnitude the coordinate has had so far in this run: an offset lost
+                # to rounding at scale S stays lost when the iterates come back
+                seen = getattr(ps, "scale_seen", None)
+                if seen is None or seen.shape != centre.shape:
+                    seen = np.zeros_like(centre)
+                seen = np.maximum(seen, np.maximum(centre, np.where(np.isfinite(xi), np.abs(xi), 0.0)))
+                ps.scale_seen = seen
+                centre = seen
                 with np.errstate(invalid="ignore"):
                     ex = np.maximum(np.maximum(info["xl"] - xi, xi - info["xu"]), 0.0)
-                    allow = 64 * EPS * np.maximum(1.0, np.maximum(
+                    allow = 64 * EPS * np.maximum(np.maximum(1.0, centre), np.maximum(
                         np.where(np.isfinite(info["xl"]), np.abs(info["xl"]), 0.0),
                         np.maximum(np.where(np.isfinite(info["xu"]), np.abs(info["xu"]), 0.0), np.abs(xi))))
                     over = ex - allow
